@@ -702,6 +702,26 @@ func (x *Exec) evalCall(env *Env, e *Expr) (Val, error) {
 			return nil, err
 		}
 		return Or(Eq(args[0], BytesNil), UF("bytes_empty", SBool, args[0])), nil
+	case "creditcoins", "debitcoins": // creditcoins(bal, addr, coins)
+		if err := need(3); err != nil {
+			return nil, err
+		}
+		row := Select(args[0], args[1])
+		var nr *Term
+		if name == "creditcoins" {
+			nr = x.pointwise(env.st, "spec_add", row, args[2], func(p, q *Term) *Term { return Add(p, q) })
+		} else {
+			nr = x.pointwise(env.st, "spec_sub", row, args[2], func(p, q *Term) *Term { return Sub(p, q) })
+		}
+		return Store(args[0], args[1], nr), nil
+	case "addcoins", "subcoins": // addcoins(coinsA, coinsB) pointwise
+		if err := need(2); err != nil {
+			return nil, err
+		}
+		if name == "addcoins" {
+			return x.pointwise(env.st, "spec_add", args[0], args[1], func(p, q *Term) *Term { return Add(p, q) }), nil
+		}
+		return x.pointwise(env.st, "spec_sub", args[0], args[1], func(p, q *Term) *Term { return Sub(p, q) }), nil
 	case "pow10":
 		if err := need(1); err != nil {
 			return nil, err
@@ -939,12 +959,31 @@ func (x *Exec) specRepoCall(env *Env, name string, e *Expr) (Val, bool, error) {
 			ok = append(ok, o)
 		}
 	}
-	if len(ok) != 1 || len(ok[0].rets) != 1 {
-		return nil, false, fmt.Errorf("spec call %s: %d outcomes (need exactly one with one result)", name, len(ok))
+	if len(ok) == 0 || len(ok[0].rets) != 1 {
+		return nil, false, fmt.Errorf("spec call %s: %d outcomes (need at least one with one result)", name, len(ok))
 	}
-	// facts generated while executing the function are kept
-	for _, t := range ok[0].st.pc[len(env.st.pc):] {
-		env.st.assume(t)
+	if len(ok) == 1 {
+		// facts generated while executing the function are kept
+		for _, t := range ok[0].st.pc[len(env.st.pc):] {
+			env.st.assume(t)
+		}
+		return ok[0].rets[0], true, nil
 	}
-	return ok[0].rets[0], true, nil
+	// several paths: merge results by their path conditions (facts of each path guarded by its condition)
+	base := len(env.st.pc)
+	var res *Term
+	for i := len(ok) - 1; i >= 0; i-- {
+		o := ok[i]
+		rt, isT := o.rets[0].(*Term)
+		if !isT {
+			return nil, false, fmt.Errorf("spec call %s: non-term result on a multi-path function", name)
+		}
+		cond := And(o.st.pc[base:]...)
+		if res == nil {
+			res = rt
+		} else {
+			res = Ite(cond, rt, res)
+		}
+	}
+	return res, true, nil
 }
